@@ -142,7 +142,7 @@ func (c *Conn) waitFor(pred func() bool, timeout time.Duration, stop <-chan stru
 		if pred() {
 			return true
 		}
-		if !time.Now().Before(deadline) {
+		if !time.Now().Before(deadline) || c.closed {
 			return false
 		}
 		if stop != nil {
